@@ -117,8 +117,6 @@ theorem stops_edge {edge : Bool} {l : Nat} {rest : List Tok} (h : stops (if edge
   · simpa using h
   · exact stops_one_mono (by simpa using h) l
 
-theorem length_wrap_pos : True := trivial
-
 theorem specO (ex : Ast → Nat) : ∀ t : Ast, t.WF → SpecO ex t := by
   intro t
   induction t with
